@@ -29,6 +29,7 @@ type Obl struct {
 	Detail string   `json:"detail,omitempty"`
 	Canary bool     `json:"canary,omitempty"` // must NOT be provable
 	ctx    *Ctx
+	failedPart *Obl
 }
 
 type Ctx struct {
@@ -143,10 +144,26 @@ func (c *Ctx) errorf(format string, args ...interface{}) {
 func (c *Ctx) oblige(name, kind string, tags []string, reach, goal string, line int, text string) *Obl {
 	c.occ[name]++
 	full := fmt.Sprintf("%s#%d", name, c.occ[name])
+	if *flagSplit && strings.HasPrefix(goal, "(and ") && kind != "canary" {
+		var last *Obl
+		for i, part := range splitSexp(goal[5 : len(goal)-1]) {
+			o := &Obl{Name: fmt.Sprintf("%s.%d", full, i+1), Func: c.topName, Kind: kind, Tags: tags, Goal: sImp(reach, part), Prefix: len(c.lines), Line: line, Text: clipStr(part, 200), ctx: c}
+			c.obls = append(c.obls, o)
+			last = o
+		}
+		return last
+	}
 	g := sImp(reach, goal)
 	o := &Obl{Name: full, Func: c.topName, Kind: kind, Tags: tags, Goal: g, Prefix: len(c.lines), Line: line, Text: text, ctx: c}
 	c.obls = append(c.obls, o)
 	return o
+}
+
+func clipStr(s string, n int) string {
+	if len(s) > n {
+		return s[:n] + "…"
+	}
+	return s
 }
 
 func heapKey(s, f string, k int) string { return fmt.Sprintf("%s.%s.%d", s, f, k) }
@@ -357,10 +374,10 @@ func (fr *Frame) assumeRange(v Val) {
 			}
 		}
 	case KStr:
-		c.assumeOnce("(and (<= 0 " + v.C[2] + ") (<= 0 " + v.C[1] + ") (<= (+ " + v.C[1] + " " + v.C[2] + ") 4611686018427387904))")
+		c.assumeOnce("(and (<= 0 " + v.C[2] + ") (<= 0 " + v.C[1] + ") (<= (+ " + v.C[1] + " " + v.C[2] + ") 1152921504606846976))")
 	case KSlice:
 		n := v.C[len(v.C)-1]
-		c.assumeOnce("(and (<= 0 " + n + ") (<= " + n + " 4611686018427387904))")
+		c.assumeOnce("(and (<= 0 " + n + ") (<= " + n + " 1152921504606846976))")
 	case KStruct, KTuple:
 		for _, e := range v.Elems {
 			fr.assumeRange(e)
@@ -1595,6 +1612,25 @@ func (c *Ctx) mapLookup(glob string, key Val) (string, string) {
 		}
 	}
 	c.assumeOnce(sImp(sNot(sEq(val, "0")), "(and (<= 1 "+key.C[2]+") (<= "+key.C[2]+" "+fmt.Sprint(maxLen)+"))"))
+	// ground lemmas about the table, re-established from its contents on every run
+	fn2, ascii := true, true
+	for k, v := range c.pr.Tables.SqlKeywords {
+		if v == 'f' && len(k) < 2 {
+			fn2 = false
+		}
+		for i := 0; i < len(k); i++ {
+			if k[i] >= 128 {
+				ascii = false
+			}
+		}
+	}
+	if fn2 {
+		c.assumeOnce(sImp(sEq(val, "102"), "(<= 2 "+key.C[2]+")"))
+	}
+	if ascii {
+		q := c.fresh("qk")
+		c.assumeOnce(sImp(sNot(sEq(val, "0")), "(forall (("+q+" Int)) (! (=> (and (<= "+key.C[1]+" "+q+") (< "+q+" (+ "+key.C[1]+" "+key.C[2]+"))) (< (select "+key.C[0]+" "+q+") 128)) :pattern ((select "+key.C[0]+" "+q+"))))"))
+	}
 	ok := sNot(sEq(val, "0"))
 	return val, ok
 }
